@@ -10,7 +10,7 @@ CLAIMED = {
        'the quoted-key state and must give back exactly that byte; controls/quote/backslash always escaped; default number formats carry '
        '17/9 significant digits; reserve >= snprintf size >= widest text of every format used; non-finite guard; int path bounded to 9 digits; '
        'encoder type dispatch exhaustive; final flush, file sink, BOM probe outside the chunk loop. Bit-exact number recovery is not decided.',
-  technique='extraction of the encoder escape table + byte sets, run through the abstractly interpreted decoder transition function for all 255 bytes; constant/width table evaluation; CFG must-pass (final flush); tag exhaustiveness; per-byte emission table of the escaper by guard/argument evaluation (emit.py); a corpus of JSON/XDL documents driven through the interpreted decoder machine (accepting run); chunk rule of the parser (C06.chunks) and raw-key-append rule of the encoder',
+  technique='extraction of the encoder escape table + byte sets, run through the abstractly interpreted decoder transition function for all 255 bytes; constant/width table evaluation; CFG must-pass (final flush); tag exhaustiveness; per-byte emission table of the escaper by guard/argument evaluation (emit.py); a corpus of JSON/XDL documents driven through the interpreted decoder machine (accepting run); chunk rule of the parser (C06.chunks) and raw-key-append rule of the encoder; SIMPLE-flag evaluation over all mode values, room for the chunk terminator',
   ref='DESIGN.md section 3 C05'),
  'C07': dict(
   text='Abstract interpretation of the Xml::decode loop over every reachable (state, last state, open-element stack) and byte class: no '
@@ -18,7 +18,7 @@ CLAIMED = {
        'input, e.g. "</>" on the original tree); state-dispatch exhaustiveness; children attached only through the parent-linking operator; '
        'the encoder escapes every byte the decoder treats specially in text and double-quoted attribute values and the decoder\'s entity table '
        'inverts the names written; scratch buffer of character references holds the longest sequence. Tree equality after a round trip is not decided.',
-  technique='abstract interpretation of the decoder transition function (worklist fixpoint), exhaustiveness and single-writer queries, escape/entity table agreement over the resolved AST; per-byte emission table of the escaper by guard/argument evaluation (emit.py); a corpus of XML documents through the interpreted decoder machine with an open/text/close event log; literal-read bound rule (R-LITREAD) with a self-test fixture; counting loops over followed texts executed concretely; longest output of the encoder from its interpreted body',
+  technique='abstract interpretation of the decoder transition function (worklist fixpoint), exhaustiveness and single-writer queries, escape/entity table agreement over the resolved AST; per-byte emission table of the escaper by guard/argument evaluation (emit.py); a corpus of XML documents through the interpreted decoder machine with an open/text/close event log; literal-read bound rule (R-LITREAD) with a self-test fixture; counting loops over followed texts executed concretely; longest output of the encoder from its interpreted body; no block read through the cursor',
   ref='DESIGN.md section 3 C07'),
  'C06': dict(
   text='Abstract interpretation of the JSON/XDL parser loop over every reachable abstract configuration (state, previous state, comment flag, '
@@ -27,7 +27,7 @@ CLAIMED = {
        'escape completes, push-back terminates; plus state-dispatch exhaustiveness, the acceptance condition of value()/decode(), and the '
        'structural chunk-independence conditions (no look-ahead through the cursor, no per-call state). Reports carry a witness input. '
        'Agreement with an independent JSON parser is not decided.',
-  technique='abstract interpretation of the parser transition function (worklist fixpoint over finite abstract configurations x byte classes), exhaustiveness and dominance queries on the resolved AST; guard evaluation of value() over all (state, context) pairs and of the integer-conversion sites over literal lengths; a corpus of 35 documents through the machine: accepting run and rejection of every proper prefix (depth <= K); parser freshness of the decode entry points (C06.fresh), value constructors by the C04 rules, cursor used by the byte loop only',
+  technique='abstract interpretation of the parser transition function (worklist fixpoint over finite abstract configurations x byte classes), exhaustiveness and dominance queries on the resolved AST; guard evaluation of value() over all (state, context) pairs and of the integer-conversion sites over literal lengths; a corpus of 35 documents through the machine: accepting run and rejection of every proper prefix (depth <= K); parser freshness of the decode entry points (C06.fresh), value constructors by the C04 rules, cursor used by the byte loop only; all two-character escapes and a raw DEL in the corpus, C-library character classes evaluated by the machine',
   ref='DESIGN.md section 2 R-AUTOMATON, section 3 C06'),
  'C09': dict(
   text='Static decision of the structural clauses of HTTP request parsing: on every path through HttpRequest::read the path is percent-decoded '
@@ -59,7 +59,7 @@ CLAIMED = {
        'finished flag after the OS thread exists (call-graph closure over copy/assign); parallel_for/parallel_invoke join everything they start; '
        'the worker count is evaluated over a grid (1 <= n <= min(threads, length)) and the partition fields/loop have the strided form; '
        'Semaphore/Condition are exact thin wrappers. Visibility under all schedules is not decided.',
-  technique='CFG typestate dataflow for ordering/must-precede/join pairing with call-graph closure; expression evaluation of the worker-count formula over a finite grid; structural data-flow identities; counted-loop normal form + trip counts; 3-valued evaluation of wrapper return trees; early-return coverage over the (i0, length, threads) grid; ready-signal classification (plain store / atomic / unknown) with helper resolution (C13.handover), context owner rule, signal-must-wake rule, native-handle initialisation; every start() creates a thread (C13.start), timed-wait deadline interpreted on a (clock, timeout) grid (C13.deadline), hand-over record members by value, use() records the mutex on every path',
+  technique='CFG typestate dataflow for ordering/must-precede/join pairing with call-graph closure; expression evaluation of the worker-count formula over a finite grid; structural data-flow identities; counted-loop normal form + trip counts; 3-valued evaluation of wrapper return trees; early-return coverage over the (i0, length, threads) grid; ready-signal classification (plain store / atomic / unknown) with helper resolution (C13.handover), context owner rule, signal-must-wake rule, native-handle initialisation; every start() creates a thread (C13.start), timed-wait deadline interpreted on a (clock, timeout) grid (C13.deadline), hand-over record members by value, use() records the mutex on every path; timed waits report the native result',
   ref='DESIGN.md section 3 C13'),
  'C15': dict(
   text='Static decision of the structural clauses of the codec property: Base64 alphabet/inverse-table agreement on all 64 symbols and 6-bit '
@@ -93,7 +93,7 @@ CLAIMED = {
        'argument (possibly an element/property of *this) is used after *this released or modified its containers (with summaries of the '
        'Array<Var>/Dic<Var> members it forwards to), clone() detaches before deep-cloning children, copies into the inline string buffer are '
        'length-guarded. Value fidelity of accessors and numeric equality are not decided.',
-  technique='exhaustive tag-dispatch agreement over the resolved AST, alias-after-invalidate typestate dataflow with interprocedural summaries, dominating-guard bound check; guard evaluation over small grids with path-sensitive CFG confirmation (inline buffer), conversion-chain range check over a grid of stored doubles, handle-copy query for the string buffer; string-representation writers by (partial) interpretation of every writer of the tag/inline buffer/heap pointer (C04.strrep), container-handle rule (C04.handles), numeric equality model; range guards of removeAt on a grid (C04.range), toString() interpreted for numeric extremes (C04.tostring)',
+  technique='exhaustive tag-dispatch agreement over the resolved AST, alias-after-invalidate typestate dataflow with interprocedural summaries, dominating-guard bound check; guard evaluation over small grids with path-sensitive CFG confirmation (inline buffer), conversion-chain range check over a grid of stored doubles, handle-copy query for the string buffer; string-representation writers by (partial) interpretation of every writer of the tag/inline buffer/heap pointer (C04.strrep), container-handle rule (C04.handles), numeric equality model; range guards of removeAt on a grid (C04.range), toString() interpreted for numeric extremes (C04.tostring); key-search rule of the sorted map (C02.map) on the Dic<Var> instantiation',
   ref='DESIGN.md section 3 C04'),
  'C02': dict(
   text='Static decision of the structural clauses of the finite-map property on every instantiated member of HashMap/HashDic/Set/Map: chain '
@@ -101,7 +101,7 @@ CLAIMED = {
        '2^k+SKIP with binOf/rehash mask agreement, rehash re-links every node and restores the count, no bucket index or chain pointer survives a '
        'table replacement, HashMap handle refcount protocol, Map inserts at the decoded indexOf position, comparators do not subtract integers, Set is thin. '
        'Correctness of the hand-written binary search is not decided.',
-  technique='CFG typestate dataflow (unlink/re-link, stale table-derived values), constant evaluation of table geometry, guard/dominance queries over instantiated templates; evaluation of the bucket-enumerator range against the array length; chain-removal and rehash models by interpretation of the instantiated members (int keys), R-ALIAS for Map; dup() as re-insertion or checked chain copy (C02.dup), size shortcuts of the set predicates on a size grid (C02.sizecut), copy-and-swap assignment modelled in R-RC',
+  technique='CFG typestate dataflow (unlink/re-link, stale table-derived values), constant evaluation of table geometry, guard/dominance queries over instantiated templates; evaluation of the bucket-enumerator range against the array length; chain-removal and rehash models by interpretation of the instantiated members (int keys), R-ALIAS for Map; dup() as re-insertion or checked chain copy (C02.dup), size shortcuts of the set predicates on a size grid (C02.sizecut), copy-and-swap assignment modelled in R-RC; who may size the bucket array (C02.tablesize), String key order by interpretation (C02.order)',
   ref='DESIGN.md section 3 C02'),
  'C01': dict(
   text='Static decision, on every instantiated member of Array/Stack/Queue for int, String, Var and nested-array elements, of the structural '
@@ -116,7 +116,7 @@ CLAIMED = {
        'byte counts of raw transfers carry the element size (R-UNITS), every scalar operator moves exactly sizeof(T) bytes and swaps '
        'iff the re-read byte-order member equals the non-native order, both branches of array writers emit length*sizeof(T), '
        'StreamBufferReader byte/shift tables, swapBytes reversal. Value identity per bit pattern is not decided.',
-  technique='custom AST checker over clang-resolved template instantiations (units rule, sibling agreement, constant byte/shift table evaluation); byte-provenance interpretation of the reader (byteprov), cell-level interpretation of swapBytes and swap-free writers (cellsim), bit provenance with a mixed-bit marker for arithmetic swaps, per-byte-order guard evaluation of swap/array paths, linear progress invariant of the partial-transfer loops; read-n / file-read / raw-scalar transfer rules, array writers interpreted with token elements; byte-order members initialised by every constructor and refreshed by setEndian() (C16.order), R-ALIAS for StreamBuffer, sending independent of a stale receive error',
+  technique='custom AST checker over clang-resolved template instantiations (units rule, sibling agreement, constant byte/shift table evaluation); byte-provenance interpretation of the reader (byteprov), cell-level interpretation of swapBytes and swap-free writers (cellsim), bit provenance with a mixed-bit marker for arithmetic swaps, per-byte-order guard evaluation of swap/array paths, linear progress invariant of the partial-transfer loops; read-n / file-read / raw-scalar transfer rules, array writers interpreted with token elements; byte-order members initialised by every constructor and refreshed by setEndian() (C16.order), R-ALIAS for StreamBuffer, sending independent of a stale receive error; no widening conversion on the way into a scalar writer (C16.width)',
   ref='DESIGN.md section 3 C16'),
 
  'C12': dict(
@@ -125,7 +125,7 @@ CLAIMED = {
        'returned value, one acquire/one release per path, acquire before release, fresh count 1, relocation only when unique, Lock scope '
        'encloses every access. These are the necessary conditions of the standard protocol argument for all interleavings; the interleavings '
        'themselves are not enumerated.',
-  technique='typestate dataflow over per-function CFGs with same-family callee inlining (reference-count protocol), lock-scope enclosure check, LLVM-IR cross-check of the atomic primitive (thorough); release-before-acquire without the identity-guard excuse, copy-and-swap and exchange helpers modelled, AtomicCount operators interpreted against recorder primitives',
+  technique='typestate dataflow over per-function CFGs with same-family callee inlining (reference-count protocol), lock-scope enclosure check, LLVM-IR cross-check of the atomic primitive (thorough); release-before-acquire without the identity-guard excuse, copy-and-swap and exchange helpers modelled, AtomicCount operators interpreted against recorder primitives; the guarded mutex is a member constructed with the object',
   ref='DESIGN.md section 2 R-RC/R-LOCK, section 3 C12'),
 }
 
